@@ -109,6 +109,26 @@ pub fn run(ctx: &Ctx) -> i32 {
                 desc = format!("bits per tile {} at {:?}", bits, p);
                 b
             }
+            4 if i % 33 == 4 => {
+                // a second tileset chunk that repeats an id, this time without embedded pixels (it supersedes the first)
+                let k = rng.usize_below(sp.tilesets.len());
+                let mut spec = compile_with(&sp, &mut rng, &v, &palprog);
+                let mut dup = sp.tilesets[k].clone();
+                let link = rng.chance(1, 2);
+                dup.flags = (dup.flags & TS_ZERO_EMPTY) | if link { TS_LINK } else { 0 };
+                dup.pixels = vec![];
+                if link {
+                    dup.ext = Some((rng.u32(), rng.u32()));
+                }
+                // after the last tileset chunk of frame 0, or at the start of the last frame
+                let fi = if rng.chance(1, 2) { 0 } else { spec.frames.len() - 1 };
+                let pos = if fi == 0 { spec.frames[0].chunks.iter().rposition(|c| matches!(c.spec, ChunkSpec::Tileset { .. })).map(|p| p + 1).unwrap_or(0) } else { 0 };
+                let next_is_ud = matches!(spec.frames[fi].chunks.get(pos).map(|c| &c.spec), Some(ChunkSpec::UserData(_)));
+                let pos = if next_is_ud { spec.frames[fi].chunks.len() } else { pos };
+                spec.frames[fi].chunks.insert(pos, ChunkSpec::Tileset { t: dup, level: 6, reserved: [0; 14] }.into());
+                desc = format!("tileset id {} defined a second time (frame {}) without embedded pixels (external link: {})", sp.tilesets[k].id, fi, link);
+                encode(&spec).0
+            }
             4 => {
                 // tileset without embedded pixels (with / without external link; used or unused by a layer)
                 let k = rng.usize_below(sp.tilesets.len());
@@ -146,6 +166,30 @@ pub fn run(ctx: &Ctx) -> i32 {
                 let (mut b, map) = encode(&compile_with(&sp, &mut rng, &v, &palprog));
                 let p = patch(&mut b, &map, ":layer.blend", which, t as u64);
                 desc = format!("blend mode {} at {:?}", t, p);
+                b
+            }
+            8 if i % 3 == 2 && sp.layers.iter().any(|l| l.kind == LayerKind::Group) => {
+                // the cel of unknown type (or the tilemap cel with other than 32 bits per tile) sits on a GROUP layer
+                let g = sp.layers.iter().position(|l| l.kind == LayerKind::Group).unwrap() as u16;
+                let mut spec = compile_with(&sp, &mut rng, &v, &palprog);
+                let fi = rng.usize_below(spec.frames.len());
+                let t = *rng.pick(&[4u16, 7, 255, 0xffff]);
+                let bad_bits = rng.chance(1, 3);
+                let chunk = if bad_bits {
+                    ChunkSpec::Cel { layer: g, c: CelM { x: 0, y: 0, opacity: 255, content: CelContentM::Tilemap { w: 1, h: 1, tiles: vec![0], masks: [0x1fff_ffff, 0x2000_0000, 0x4000_0000, 0x8000_0000] }, ud: None }, storage: Storage::Zlib(6), reserved: [0; 7], cel_type_override: None }
+                } else {
+                    ChunkSpec::Cel { layer: g, c: CelM { x: 0, y: 0, opacity: 255, content: CelContentM::Image { w: 1, h: 1, pixels: vec![0; sp.fmt.bpp()] }, ud: None }, storage: Storage::Raw, reserved: [0; 7], cel_type_override: Some(t) }
+                };
+                spec.frames[fi].chunks.push(chunk.into());
+                let (mut b, map) = encode(&spec);
+                if bad_bits {
+                    let fields: Vec<_> = map.fields.iter().filter(|f| f.name.ends_with(":cel.bits")).collect();
+                    if let Some(f) = fields.last() {
+                        b[f.off] = 16;
+                        b[f.off + 1] = 0;
+                    }
+                }
+                desc = format!("{} in a cel chunk addressed to group layer {} (frame {})", if bad_bits { "16 bits per tile".to_string() } else { format!("cel type {}", t) }, g, fi);
                 b
             }
             8 => {
